@@ -632,16 +632,16 @@ Section Sim.
         unfold ptr_at in *. rewrite Hp in P1. inv P1. apply in_map. auto.
   Qed.
 
-  Lemma bind_head : forall k p i a e ce X BB sc, Sep X sc -> Binv BB sc ->
+  Lemma bind_head : forall all k p i a e ce X BB sc, Sep X sc -> Binv BB sc ->
     (exists er, forall ps args,
-        bind_params false mt k i (p :: ps) (a :: args) e ce sc = Er er /\
-        bind_params true mt k i (p :: ps) (a :: args) e ce (patch BB sc) = Er er)
+        bind_params false mt all k i (p :: ps) (a :: args) e ce sc = Er er /\
+        bind_params true mt all k i (p :: ps) (a :: args) e ce (patch BB sc) = Er er)
     \/ (exists ad st3 Bhd,
           (forall ps args,
-             bind_params false mt k i (p :: ps) (a :: args) e ce sc =
-               bind_params false mt k (S i) ps args e ((pname p, ad) :: ce) st3 /\
-             bind_params true mt k i (p :: ps) (a :: args) e ce (patch BB sc) =
-               bind_params true mt k (S i) ps args e ((pname p, ad) :: ce) (patch (Bhd ++ BB) st3)) /\
+             bind_params false mt all k i (p :: ps) (a :: args) e ce sc =
+               bind_params false mt all k (S i) ps args e ((pname p, ad) :: ce) st3 /\
+             bind_params true mt all k i (p :: ps) (a :: args) e ce (patch BB sc) =
+               bind_params true mt all k (S i) ps args e ((pname p, ad) :: ce) (patch (Bhd ++ BB) st3)) /\
           Sep X st3 /\ Binv (Bhd ++ BB) st3 /\ length (vars sc) <= length (vars st3) /\
           (if pref p then (exists x, a = ARef x /\ lookup e x = Some ad) /\ st3 = sc /\ Bhd = []
            else ad = length (vars sc) /\ length (vars st3) = S ad /\
@@ -649,7 +649,7 @@ Section Sim.
                     (In (b_al b') (map b_al BB) \/
                      exists x, a = AVal (EVar x) /\ lookup e x = Some (b_al b') /\ ~ In (b_al b') (map b_pa BB))))).
   Proof.
-    intros k p i a e ce X BB sc HS HB.
+    intros all k p i a e ce X BB sc HS HB.
     destruct (pref p) eqn:Ep; destruct a as [ex|x].
     - left. exists EStuck. intros. cbn. rewrite Ep. auto.
     - destruct (lookup e x) as [ad|] eqn:El.
@@ -669,9 +669,9 @@ Section Sim.
         split; [intros; cbn [bind_params]; rewrite Ep, Hev, E1; cbn [bind]; rewrite En, (new_var_patch _ _ _ _ _ En); auto|].
         split; [eapply Sep_new_var_int; eauto|split; [eapply Binv_new_var; eauto|split; [rewrite N2, app_length, Ev; lia|]]].
         split; [congruence|split; [rewrite N2, app_length, Ev, Ead, Ev; cbn; lia|auto]].
-      + destruct (is_const mt k i && negb tmp) eqn:Ec.
+      + destruct (is_const mt k i && negb tmp && may_elide e all ex st1) eqn:Ec.
         * (* elided *)
-          apply andb_true_iff in Ec. destruct Ec as [Ec1 Ec2]. apply negb_true_iff in Ec2. subst tmp.
+          apply andb_true_iff in Ec. destruct Ec as [Ec Ec3]. apply andb_true_iff in Ec. destruct Ec as [Ec1 Ec2]. apply negb_true_iff in Ec2. subst tmp.
           destruct (eval_nontmp _ _ _ _ _ E1) as (x & ax & -> & Lx & Px & ->).
           destruct (sep_live _ _ HS _ _ Px) as [c Hc].
           destruct (alloc (Live c) sc) as [lc sc2] eqn:Ea.
@@ -683,7 +683,9 @@ Section Sim.
           pose proof (new_var_spec _ _ _ _ En) as (Ead & N2 & N3 & N4 & N5).
           right. exists ad, sc3, [b'].
           split.
-          { intros. cbn [bind_params]. rewrite Ep, Hev, E1. cbn [bind andb]. rewrite Ec1. cbn [negb andb claim_or_copy].
+          { intros. cbn [bind_params]. rewrite Ep, Hev, E1. cbn [bind andb].
+            change (may_elide e all (EVar x) (patch BB sc)) with (may_elide e all (EVar x) sc).
+            rewrite Ec1, Ec3. cbn [negb andb claim_or_copy].
             unfold copy_of. rewrite (read_live _ _ _ Hc). cbn [bind]. rewrite Ea. cbn [bind]. rewrite En.
             rewrite (target_lender X BB sc l ax) by auto.
             rewrite (alloc_alias_patch BB sc c (snd (lender BB l ax)) lc sc2 ad (fst (lender BB l ax))) by auto.
@@ -697,14 +699,17 @@ Section Sim.
           assert (Hl : live st1 l) by (eapply rv_read_live; eauto).
           pose proof (claim_or_copy_patch BB st1 l tmp B1 Hl) as Hcc.
           destruct (claim_or_copy l tmp st1) as [[l' st2]|er] eqn:E2.
-          2:{ left. exists er. intros. cbn [bind_params]. rewrite Ep, Hev, E1. cbn [bind andb]. rewrite Ec, Hcc, E2. auto. }
+          2:{ left. exists er. intros. cbn [bind_params]. rewrite Ep, Hev, E1. cbn [bind andb].
+              change (may_elide e all ex (patch BB st1)) with (may_elide e all ex st1). rewrite Ec, Hcc, E2. auto. }
           cbn [lift1] in Hcc.
           destruct (claim_or_copy_spec _ _ _ _ _ _ S1 R1 E2) as (C1 & C2 & C3 & C4 & C5 & C6).
           pose proof (Binv_heap_same _ _ _ _ S1 B1 C2 C4) as B2.
           destruct (new_var (VPtr l') st2) as [ad st3] eqn:En.
           pose proof (new_var_spec _ _ _ _ En) as (Ead & N2 & N3 & N4 & N5).
           right. exists ad, st3, [].
-          split; [intros; cbn [bind_params]; rewrite Ep, Hev, E1; cbn [bind andb]; rewrite Ec, Hcc, E2; cbn [bind]; rewrite En, (new_var_patch _ _ _ _ _ En); auto|].
+          split; [intros; cbn [bind_params]; rewrite Ep, Hev, E1; cbn [bind andb];
+                  change (may_elide e all ex (patch BB st1)) with (may_elide e all ex st1);
+                  rewrite Ec, Hcc, E2; cbn [bind]; rewrite En, (new_var_patch _ _ _ _ _ En); auto|].
           split; [eapply Sep_new_var_ptr; eauto|split; [eapply Binv_new_var; eauto|split; [rewrite N2, app_length, C2, Ev; lia|]]].
           split; [congruence|split; [rewrite N2, app_length, C2, Ev, Ead, C2, Ev; cbn; lia|auto]].
     - left. exists EStuck. intros. cbn. rewrite Ep. auto.
@@ -719,13 +724,13 @@ Section Sim.
        exists j x, nth_error args j = Some (AVal (EVar x)) /\ is_const mt k (i + j) = true /\
                    lookup e x = Some (b_al b) /\ ~ In (b_al b) (map b_pa BB)).
 
-  Lemma bind_params_sim : forall k ps i args e ce X BB sc,
+  Lemma bind_params_sim : forall all k ps i args e ce X BB sc,
     Sep X sc -> Binv BB sc -> NoDup (map pname ps) ->
-    match bind_params false mt k i ps args e ce sc with
-    | Er er => bind_params true mt k i ps args e ce (patch BB sc) = Er er
+    match bind_params false mt all k i ps args e ce sc with
+    | Er er => bind_params true mt all k i ps args e ce (patch BB sc) = Er er
     | Ok (ce', sc') =>
         exists Bn,
-          bind_params true mt k i ps args e ce (patch BB sc) = Ok (ce', patch (Bn ++ BB) sc') /\
+          bind_params true mt all k i ps args e ce (patch BB sc) = Ok (ce', patch (Bn ++ BB) sc') /\
           Binv (Bn ++ BB) sc' /\ bn_ok k i ps args e ce' BB Bn (length (vars sc)) /\
           length (vars sc) <= length (vars sc') /\
           (forall y, ~ In y (map pname ps) -> lookup ce' y = lookup ce y) /\
@@ -737,17 +742,17 @@ Section Sim.
               lookup ce' (pname p) = Some a -> lookup ce' (pname p') = Some a -> j = j')
     end.
   Proof.
-    intros k ps. induction ps as [|p ps IH]; intros i args e ce X BB sc HS HB Hnd.
+    intros all k ps. induction ps as [|p ps IH]; intros i args e ce X BB sc HS HB Hnd.
     - destruct args as [|a args]; cbn; [|reflexivity].
       exists []. split; [reflexivity|split; [exact HB|split; [intros b []|split; [lia|split; [auto|split]]]]].
       + intros j p Hj. destruct j; discriminate Hj.
       + intros j j' p p' a Hj. destruct j; discriminate Hj.
     - destruct args as [|a args]; [cbn; reflexivity|]. inv Hnd.
-      destruct (bind_head k p i a e ce X BB sc HS HB) as [(er & Her)|(ad & st3 & Bhd & Heq & S3 & B3 & L3 & Hp)].
+      destruct (bind_head all k p i a e ce X BB sc HS HB) as [(er & Her)|(ad & st3 & Bhd & Heq & S3 & B3 & L3 & Hp)].
       { destruct (Her ps args) as [-> ->]. reflexivity. }
       destruct (Heq ps args) as [-> ->].
       specialize (IH (S i) args e ((pname p, ad) :: ce) X (Bhd ++ BB) st3 S3 B3 H2).
-      destruct (bind_params false mt k (S i) ps args e ((pname p, ad) :: ce) st3) as [[ce' sc']|er]; [|exact IH].
+      destruct (bind_params false mt all k (S i) ps args e ((pname p, ad) :: ce) st3) as [[ce' sc']|er]; [|exact IH].
       destruct IH as (Bn & I1 & I2 & I3 & I4 & I5 & I6 & I7).
       assert (Lp : lookup ce' (pname p) = Some ad).
       { rewrite I5 by auto. cbn. rewrite Nat.eqb_refl. auto. }
@@ -884,7 +889,7 @@ Section Sim.
             destruct HB as [Hnd H]. destruct (H b Hin) as (P1 & _). rewrite E in P1.
             assert (El : b_lc b = l) by (unfold ptr_at in *; congruence). subst l.
             unfold release. cbn [heap patch set_heap]. rewrite patchh_in; auto.
-            f_equal. unfold patch, set_heap. cbn. rewrite F2, F3, F4, F5. f_equal.
+            f_equal. unfold patch, set_heap. cbn. rewrite F2, F3, F4, F5, (free_fbase _ _ _ Ef). f_equal.
             rewrite patchh_drop by auto. f_equal. unfold BB1. apply filter_ext_in. intros b' Hb'.
             f_equal. destruct (H b' Hb') as (P1' & _).
             destruct (Nat.eqb_spec (b_pa b') a) as [E1|N1]; destruct (Nat.eqb_spec (b_lc b') (b_lc b)) as [E2|N2]; auto.
@@ -1113,26 +1118,28 @@ Section Sim.
     assert (Efn : fn funs k = fd) by (unfold fn; apply nth_error_nth; auto).
     pose proof (funs_ok k Hk) as Hfk. unfold fun_ok in Hfk. apply andb_true_iff in Hfk. destruct Hfk as [Hnd Hbody].
     apply nodupb_NoDup in Hnd. rewrite Efn in Hnd, Hbody.
-    pose proof (bind_params_sim k (fparams fd) 0 args e genv X B sc HS HB Hnd) as Hb.
-    destruct (bind_params false mt k 0 (fparams fd) args e genv sc) as [[ce st1]|er] eqn:Ebind.
+    pose proof (bind_params_sim args k (fparams fd) 0 args e genv X B sc HS HB Hnd) as Hb.
+    destruct (bind_params false mt args k 0 (fparams fd) args e genv sc) as [[ce st1]|er] eqn:Ebind.
     2:{ rewrite Hb. split; [reflexivity|intros sc' H; discriminate H]. }
     destruct Hb as (Bn & Hbe & HBt & Hbn & Hlen & Hout & Hpar & Hinj). rewrite Hbe. cbn [bind lift0].
-    destruct (bind_params_copy_spec _ _ _ _ _ _ _ _ _ _ _ Ebind HS) as (B1 & _ & B3 & B4 & B5 & B6 & B7).
+    destruct (bind_params_copy_spec _ _ _ _ _ _ _ _ _ _ _ _ Ebind HS) as (B1 & _ & B3 & B4 & B5 & B6 & B7).
     set (BBt := Bn ++ B) in *. set (saved := tmps st1).
-    assert (Esaved : tmps (patch BBt st1) = saved) by reflexivity. rewrite Esaved. rewrite set_tmps_patch.
+    assert (Esaved : tmps (patch BBt st1) = saved) by reflexivity. rewrite Esaved.
+    set (st1' := set_fbase (set_tmps st1 []) (length (vars sc))).
+    change (set_fbase (set_tmps (patch BBt st1) []) (length (vars sc))) with (patch BBt st1').
     (* the callee's body *)
-    assert (S1' : Sep (saved ++ X) (set_tmps st1 [])) by (apply (Sep_perm X (saved ++ X) st1 (set_tmps st1 [])); auto).
-    assert (B1' : Binv BBt (set_tmps st1 [])) by (eapply Binv_keeps; [exact HBt|]; intros; split; (split; [reflexivity|intros; reflexivity])).
-    assert (A1' : Ainv (Some k) (length (vars sc)) BBt ce (set_tmps st1 [])).
+    assert (S1' : Sep (saved ++ X) st1') by (apply (Sep_perm X (saved ++ X) st1 st1'); auto).
+    assert (B1' : Binv BBt st1') by (eapply Binv_keeps; [exact HBt|]; intros; split; (split; [reflexivity|intros; reflexivity])).
+    assert (A1' : Ainv (Some k) (length (vars sc)) BBt ce st1').
     { rewrite <- Efn in Hbn, Hout, Hpar, Hinj, Hnd.
       eapply Ainv_mono; [eapply (callee_Ainv c base B e sc k args ce st1 Bn); eauto|cbn; lia]. }
-    assert (He1 : env_ok genv ce (set_tmps st1 [])).
+    assert (He1 : env_ok genv ce st1').
     { destruct He as [He1 He2]. split; [|exact B7]. cbn. intros ad Ha. apply B6 in Ha.
       destruct Ha as [Ha|[Ha|Ha]]; [apply He2 in Ha; apply He1 in Ha; lia| |lia].
       apply ref_addrs_in in Ha. apply He1 in Ha. lia. }
-    destruct (Hsim (Some k) (length (vars sc)) BBt ce (fbody fd) (set_tmps st1 []) (saved ++ X) S1' eq_refl B1' A1' He1 Hbody) as [Hbd Hbk].
+    destruct (Hsim (Some k) (length (vars sc)) BBt ce (fbody fd) st1' (saved ++ X) S1' eq_refl B1' A1' He1 Hbody) as [Hbd Hbk].
     rewrite Hbd.
-    destruct (exF ce (fbody fd) (set_tmps st1 [])) as [st2|er] eqn:Ebody; [|split; [reflexivity|intros sc' H; discriminate H]].
+    destruct (exF ce (fbody fd) st1') as [st2|er] eqn:Ebody; [|split; [reflexivity|intros sc' H; discriminate H]].
     cbn [lift0 bind].
     pose proof (Hok _ _ _ _ _ Ebody S1' eq_refl He1) as (C1 & C2 & C3 & C4). cbn in C3.
     assert (B2 : Binv BBt st2) by (eapply Binv_keeps; [exact B1'|]; intros b Hb; apply (Hbk _ eq_refl b Hb)).
@@ -1174,15 +1181,24 @@ Section Sim.
         eapply keeps_trans; [exact Q2|]. eapply keeps_trans; [apply R4; lia|apply F5; auto]. }
     assert (B7' : Binv B st7) by (eapply Binv_keeps; [exact HB|exact K7]).
     (* back in the caller *)
+    change (fbase (patch B sc)) with (fbase sc).
+    set (st7r := set_fbase st7 (fbase sc)).
+    change (set_fbase (patch B st7) (fbase sc)) with (patch B st7r).
+    assert (F1r : Sep (Y ++ saved ++ X) st7r) by (apply (Sep_perm (Y ++ saved ++ X) (Y ++ saved ++ X) st7 st7r); auto).
+    assert (K7r : forall b, In b B -> keeps sc st7r (b_pa b) /\ keeps sc st7r (b_al b)).
+    { intros b Hb. destruct (K7 b Hb) as [[Q1 Q2] [Q3 Q4]]. split; split; auto. }
+    assert (B7r : Binv B st7r) by (eapply Binv_keeps; [exact HB|exact K7r]).
+    clear F1 K7 B7'. rename F1r into F1. rename K7r into K7. rename B7r into B7'.
+    change (tmps st7) with (tmps st7r) in F2.
     rewrite !call_finish_resume.
-    assert (F2' : tmps st7 = []) by congruence.
-    destruct (resume_spec X saved result Y st7 F1 F2' R5) as (S9 & V9 & H9 & O9 & Rv9).
-    assert (Eres : resume saved result (patch B st7) = patch B (resume saved result st7)).
+    assert (F2' : tmps st7r = []) by congruence.
+    destruct (resume_spec X saved result Y st7r F1 F2' R5) as (S9 & V9 & H9 & O9 & Rv9).
+    assert (Eres : resume saved result (patch B st7r) = patch B (resume saved result st7r)).
     { unfold resume. destruct result as [[z|l t]|]; reflexivity. }
     rewrite Eres.
-    assert (B9 : Binv B (resume saved result st7)).
+    assert (B9 : Binv B (resume saved result st7r)).
     { eapply Binv_keeps; eauto. intros b Hb. split; (split; [rewrite V9; auto|intros; rewrite H9; auto]). }
-    assert (K9 : forall b, In b B -> keeps sc (resume saved result st7) (b_pa b) /\ keeps sc (resume saved result st7) (b_al b)).
+    assert (K9 : forall b, In b B -> keeps sc (resume saved result st7r) (b_pa b) /\ keeps sc (resume saved result st7r) (b_al b)).
     { intros b Hb. destruct (K7 b Hb) as [Q1 Q2].
       split; (eapply keeps_trans; [eassumption|]; split; [rewrite V9; auto|intros; rewrite H9; auto]). }
     destruct dst as [d|].
@@ -1190,7 +1206,7 @@ Section Sim.
       destruct (lookup e d) as [ad|] eqn:Ed; [|split; [reflexivity|intros sc' H; discriminate H]].
       pose proof (ai_safe _ _ _ _ _ HA _ _ Ed Hdst) as Hsafe.
       rewrite (store_value_patch X) by auto.
-      destruct (store_value ad v (resume saved (Some v) st7)) as [st10|er] eqn:Est; [|split; [reflexivity|intros sc' H; discriminate H]].
+      destruct (store_value ad v (resume saved (Some v) st7r)) as [st10|er] eqn:Est; [|split; [reflexivity|intros sc' H; discriminate H]].
       cbn [lift0 bind].
       destruct (store_value_spec _ _ _ _ _ S9 (Rv9 v eq_refl) Est) as (V1 & V2 & V3 & V4 & V5).
       assert (K10 : forall b, In b B -> keeps sc st10 (b_pa b) /\ keeps sc st10 (b_al b)).
